@@ -641,6 +641,34 @@ class Normalizer:
                 it.context_expr = self._hoist(it.context_expr, pre, cls, depth, st)
             st.body = self._block(st.body, cls, depth)
             return pre + [st]
+        # EAFP spelling of dict.get: try: t = d[k] / except KeyError: t = default
+        if isinstance(st, ast.Try) and len(st.body) == 1 and len(st.handlers) == 1 and not st.orelse and not st.finalbody \
+                and st.handlers[0].name is None and (A.dotted(st.handlers[0].type) or "") == "KeyError" and len(st.handlers[0].body) == 1:
+            b, h = st.body[0], st.handlers[0].body[0]
+            same_kind = (isinstance(b, ast.Assign) and isinstance(h, ast.Assign) and len(b.targets) == 1 and len(h.targets) == 1
+                         and isinstance(b.targets[0], ast.Name) and isinstance(h.targets[0], ast.Name) and b.targets[0].id == h.targets[0].id) \
+                or (isinstance(b, ast.Return) and isinstance(h, ast.Return))
+            bv, hv = getattr(b, "value", None), getattr(h, "value", None)
+            if same_kind and isinstance(bv, ast.Subscript) and not isinstance(bv.slice, ast.Slice) \
+                    and isinstance(bv.value, (ast.Name, ast.Attribute)) and isinstance(hv, (ast.Constant, ast.Name)):
+                args = [bv.slice] if (isinstance(hv, ast.Constant) and hv.value is None) else [bv.slice, hv]
+                call = ast.Call(func=ast.Attribute(value=bv.value, attr="get", ctx=ast.Load()), args=args, keywords=[])
+                new = copy.copy(b)
+                new.value = ast.copy_location(call, bv)
+                ast.fix_missing_locations(new)
+                return self._stmt(new, cls, depth)
+            # try: t = d[k] / except KeyError: return c   --  t = d.get(k); if t is None: return c  (model: stored values are not None)
+            if isinstance(b, ast.Assign) and len(b.targets) == 1 and isinstance(b.targets[0], ast.Name) and isinstance(h, ast.Return) \
+                    and isinstance(bv, ast.Subscript) and not isinstance(bv.slice, ast.Slice) and isinstance(bv.value, (ast.Name, ast.Attribute)) \
+                    and (hv is None or isinstance(hv, ast.Constant)):
+                call = ast.Call(func=ast.Attribute(value=bv.value, attr="get", ctx=ast.Load()), args=[bv.slice], keywords=[])
+                a1 = copy.copy(b)
+                a1.value = ast.copy_location(call, bv)
+                test = ast.Compare(left=ast.Name(id=b.targets[0].id, ctx=ast.Load()), ops=[ast.Is()], comparators=[ast.Constant(value=None)])
+                i1 = ast.copy_location(ast.If(test=test, body=[h], orelse=[]), st)
+                for x in (a1, i1):
+                    ast.fix_missing_locations(x)
+                return self._stmt(a1, cls, depth) + self._stmt(i1, cls, depth)
         if isinstance(st, ast.Try) or st.__class__.__name__ == "TryStar":
             st.body = self._block(st.body, cls, depth)
             st.orelse = self._block(st.orelse, cls, depth)
@@ -1124,9 +1152,58 @@ class Normalizer:
         return out
 
     # ------------------------------------------------------------------ lowering
+    @staticmethod
+    def _first_nested_ifexp(e, budget=[0]):
+        """the first conditional expression in an unconditionally evaluated position of expression e (not the expression itself
+        handled elsewhere), searched depth-first left to right; None if there is none"""
+        if e is None:
+            return None
+        if isinstance(e, ast.IfExp):
+            return e
+        if isinstance(e, (ast.Lambda, ast.ListComp, ast.SetComp, ast.DictComp, ast.GeneratorExp)):
+            return None
+        if isinstance(e, ast.BoolOp):
+            return Normalizer._first_nested_ifexp(e.values[0])
+        for _f, val in ast.iter_fields(e):
+            if isinstance(val, ast.expr):
+                r = Normalizer._first_nested_ifexp(val)
+                if r is not None:
+                    return r
+            elif isinstance(val, list):
+                for x in val:
+                    if isinstance(x, ast.keyword):
+                        x = x.value
+                    if isinstance(x, ast.expr):
+                        r = Normalizer._first_nested_ifexp(x)
+                        if r is not None:
+                            return r
+        return None
+
     def _lower_ifexp_stmt(self, st) -> Optional[ast.stmt]:
         def mk(test, a, b):
             return ast.copy_location(ast.If(test=test, body=[a], orelse=[b]), st)
+        # a conditional expression nested in a simple statement: the statement once per arm
+        if isinstance(st, (ast.Return, ast.Assign, ast.Expr, ast.AugAssign)) and st.value is not None and not isinstance(st.value, ast.IfExp):
+            ie = self._first_nested_ifexp(st.value)
+            if ie is not None and sum(1 for n in ast.walk(st) if isinstance(n, ast.IfExp)) <= 3:
+                def variant(arm):
+                    c = copy.deepcopy(st)
+                    # locate the corresponding IfExp in the copy by position in walk order
+                    orig = [n for n in ast.walk(st) if isinstance(n, ast.IfExp)]
+                    dup = [n for n in ast.walk(c) if isinstance(n, ast.IfExp)]
+                    tgt = dup[orig.index(ie)]
+
+                    class _Rep(ast.NodeTransformer):
+                        def visit_IfExp(self_, node):
+                            if node is tgt:
+                                return node.body if arm else node.orelse
+                            self_.generic_visit(node)
+                            return node
+                    return _Rep().visit(c)
+                a, b = variant(True), variant(False)
+                res = mk(copy.deepcopy(ie.test), a, b)
+                ast.fix_missing_locations(res)
+                return res
         if isinstance(st, ast.Assign) and isinstance(st.value, ast.IfExp):
             v = st.value
             return mk(v.test, ast.copy_location(ast.Assign(targets=copy.deepcopy(st.targets), value=v.body, lineno=st.lineno), st),
